@@ -462,4 +462,26 @@ theorem byte_persist_run (i : Nat) : ∀ (ops : List WOp) (g g' : GW) (rs : List
           (hff.2 g1 r h1)
         exact ⟨a1, fun j b hb => a2 j b (byte_persist_step hg h1 hv hnr0 hff.1 j b hb)⟩
 
+/-- Along the history, iovec `i` is never cloned while it has a placeholder pending. -/
+def GW.CleanClonesOf (i : Nat) : GW → List WOp → Prop
+  | _, [] => True
+  | g, op :: ops => (∀ v, op = .clone i → g.w.iov i = some v → v.backrefs = []) ∧
+      ∀ g' r, g.step op = some (g', r) → GW.CleanClonesOf i g' ops
+
+/-- The per-handle side condition follows from a per-object premise: `i` references no other iovec's
+pending placeholder memory now, and is never cloned while it has a placeholder pending. -/
+theorem fillFreeRun_of_unshared (i : Nat) : ∀ (ops : List WOp) (g : GW) (caps : Nat → Nat), GReach g.w caps →
+    i < g.w.iovs.length → Unshared g.w i → GW.CleanClonesOf i g ops → GW.FillFreeRun i g ops := by
+  intro ops
+  induction ops with
+  | nil => intro g caps _ _ _ _; trivial
+  | cons op ops ih =>
+    intro g caps hg hi hu hc
+    refine ⟨fun X b bs _ hX => hu X hX, ?_⟩
+    intro g' r h1
+    have hw1 := (GW.step_some h1).1
+    obtain ⟨caps1, ho, hn⟩ := (step_astep hw1).exists_caps hg.reachable.inv hg.inv
+    have hm := step_iovs_mono hw1
+    exact ih g' caps1 (hg.step hw1 ho hn) (by omega) (unshared_step hg hw1 hi hu hc.1) (hc.2 g' r h1)
+
 end Woodpile.Iovec
